@@ -61,7 +61,7 @@ def rule_P1(ctx):
                          ctx.where(mod, n))
 
 
-def rule_P2(ctx):
+def rule_P2(ctx, only=None, rid='C11.P2.slots'):
     mod = ctx.repo.mod(SIMS)
     cls = mod.cls('Simulation')
     sites = [c for c in au.calls(cls) if ast.unparse(c.func).endswith(
@@ -73,6 +73,8 @@ def rule_P2(ctx):
                 fn, ast.ClassDef) is not au.parent(fn):
             fn = au.enclosing_func(fn)
         qn = au.qualname(fn)
+        if only and not qn.endswith(only):
+            continue
         st = au.enclosing_stmt(c)
         ctx.anchor(isinstance(st, ast.Assign) and isinstance(
             st.targets[0], ast.Name), f'out = process_map(...) in {qn}')
@@ -84,7 +86,7 @@ def rule_P2(ctx):
               ast.unparse(tasks.args[0].func) == 'map' and
               len(tasks.args[0].args) == 2)
         if not ok:
-            ctx.fail('C11.P2.slots', f'{qn}: task list',
+            ctx.fail(rid, f'{qn}: task list',
                      'task list is not list(map(builder, iterable))', where)
             continue
         S = ast.unparse(tasks.args[0].args[1])
@@ -94,7 +96,7 @@ def rule_P2(ctx):
                      isinstance(x, ast.Name) and x.id == out
                      for x in ast.walk(n))]
         if not loops:
-            ctx.fail('C11.P2.slots', f'{qn}: results unused',
+            ctx.fail(rid, f'{qn}: results unused',
                      'results of process_map are never stored', where)
             continue
         # no re-assignment of S between the call and the loops
@@ -109,7 +111,7 @@ def rule_P2(ctx):
                 # direct iteration: only accumulation into a local is allowed
                 acc = all(isinstance(s, ast.AugAssign) and isinstance(
                     s.target, ast.Name) for s in lp.body)
-                ctx.check('C11.P2.slots', cons, acc,
+                ctx.check(rid, cons, acc,
                           'results are consumed by plain iteration but not '
                           'merely accumulated', ctx.where(mod, lp),
                           sample={'site': qn, 'loop': 'accumulate'})
@@ -118,7 +120,7 @@ def rule_P2(ctx):
                     'enumerate' and len(it.args) == 1 and
                     isinstance(lp.target, ast.Tuple))
             if not good:
-                ctx.fail('C11.P2.slots', cons, 'results are not consumed by '
+                ctx.fail(rid, cons, 'results are not consumed by '
                          '`for i, key in enumerate(iterable)`',
                          ctx.where(mod, lp))
                 continue
@@ -159,9 +161,11 @@ def rule_P2(ctx):
                                 problems.append(
                                     f'`{ast.unparse(t)}` is not keyed by the '
                                     f'loop keys {sorted(keys)}')
-            ctx.check('C11.P2.slots', cons, not problems,
+            ctx.check(rid, cons, not problems,
                       '; '.join(problems), ctx.where(mod, lp),
                       sample={'site': qn, 'tasks_from': S, 'slots_from': S2})
+        if only:
+            continue
         # builder: what literal
         b = ast.unparse(tasks.args[0].args[0])
         for d in ast.walk(fn):
@@ -179,6 +183,9 @@ def rule_P2(ctx):
                                   f'`{k.args[0].value}`', ok,
                                   'file name is not keyed by the task\'s own '
                                   '(source, frequency)', ctx.where(mod, k))
+    if only:
+        ctx.floor(rid, 1)
+        return
     ctx.floor('C11.P2.slots', 4)
     ws = [w for _, w, _ in whats]
     ctx.check('C11.P3.names', 'distinct hand-over prefixes', len(ws) ==
